@@ -265,8 +265,8 @@ class Ticket:
             for (K, fs, v) in cases:
                 adm = [self.is_admission(f) for f in fs if self.is_admission(f)]
                 if not adm:
-                    ok = False
-                    why = "a value of class %s is produced without the admission" % (K,)
+                    # (a definition site that is a call covers several paths of the callee: this one was not admitted and
+                    #  carries no duty; whether the caller can tell the cases apart is judged per class below)
                     continue
                 if any(self.is_gate(f, True) for f in fs):
                     continue  # end flag set: left without the ticket
